@@ -211,58 +211,61 @@ fn bad_secret_share_for<C: Suite>(
     Ok(dkg::round2::Package::new(share))
 }
 
-/// Round two: the share the receiver gets from the offender does not match the offender's commitment.
-pub fn scenario_bad_round2_share<C: Suite>(rng: &mut TestRng, p: &Params, notes: &mut Notes) -> Verdict {
-    let s = setup::<C>(rng, p, notes)?;
-    let kinds = [
-        "share-plus-one",
-        "share-plus-random",
-        "share-for-another-recipient",
-        "share-of-another-run",
-        "zero-share",
-        "altered-commitment-coefficient",
-    ];
-    let mut kind = kinds[rng.below(kinds.len())];
-    if kind == "share-for-another-recipient" && s.ids.len() < 3 {
-        kind = "share-plus-one";
-    }
-    notes.insert("fault".into(), json!(kind));
-    let mut r1 = s.run.r1_for(&s.me);
-    let mut r2 = s.run.r2_for(&s.me);
-    let honest = match r2.get(&s.bad) {
+const BAD_SHARE_KINDS: [&str; 6] = [
+    "share-plus-one",
+    "share-plus-random",
+    "share-for-another-recipient",
+    "share-of-another-run",
+    "zero-share",
+    "altered-commitment-coefficient",
+];
+
+/// Plants one faulty round-two delivery of `bad` into the receiver's maps.
+#[allow(clippy::too_many_arguments)]
+fn plant_bad_share<C: Suite>(
+    rng: &mut TestRng,
+    p: &Params,
+    s: &Setup<C>,
+    other_run: &mut Option<DkgRun<C>>,
+    bad: Id<C>,
+    kind: &str,
+    r1: &mut std::collections::BTreeMap<Id<C>, dkg::round1::Package<C>>,
+    r2: &mut std::collections::BTreeMap<Id<C>, dkg::round2::Package<C>>,
+) -> Result<Option<usize>, Stop> {
+    let honest = match r2.get(&bad) {
         Some(x) => x.clone(),
         None => return skip("internal"),
     };
     let hs = share_scalar::<C>(honest.signing_share())?;
-    let mk = |x: Sc<C>| -> Result<dkg::round2::Package<C>, Stop> {
-        Ok(dkg::round2::Package::new(make_signing_share::<C>(&x)?))
-    };
+    let mk = |x: Sc<C>| -> Result<dkg::round2::Package<C>, Stop> { Ok(dkg::round2::Package::new(make_signing_share::<C>(&x)?)) };
     match kind {
         "share-plus-one" => {
-            r2.insert(s.bad, mk(hs + one::<C>())?);
+            r2.insert(bad, mk(hs + one::<C>())?);
         }
         "share-plus-random" => {
-            r2.insert(s.bad, mk(hs + random_nonzero_scalar::<C>(rng))?);
+            r2.insert(bad, mk(hs + random_nonzero_scalar::<C>(rng))?);
         }
         "zero-share" => {
-            r2.insert(s.bad, mk(zero::<C>())?);
+            r2.insert(bad, mk(zero::<C>())?);
         }
         "share-for-another-recipient" => {
-            let third = s.ids.iter().find(|i| **i != s.bad && **i != s.me).copied();
-            let pkg = third.and_then(|t| s.run.r2_out.get(&s.bad).and_then(|m| m.get(&t)).cloned());
+            let third = s.ids.iter().find(|i| **i != bad && **i != s.me).copied();
+            let pkg = third.and_then(|t| s.run.r2_out.get(&bad).and_then(|m| m.get(&t)).cloned());
             match pkg {
                 Some(pk) => {
-                    r2.insert(s.bad, pk);
+                    r2.insert(bad, pk);
                 }
                 None => return skip("no third participant"),
             }
         }
         "share-of-another-run" => {
-            // the offender's share for the receiver from a concurrent run of the same group
-            let other = dkg_rounds::<C>(rng, &s.ids, p.n, p.t, false)?;
-            match other.r2_out.get(&s.bad).and_then(|m| m.get(&s.me)).cloned() {
+            // the offender's share for the receiver from a concurrent run of the same group (one concurrent run for all offenders)
+            if other_run.is_none() {
+                *other_run = Some(dkg_rounds::<C>(rng, &s.ids, p.n, p.t, false)?);
+            }
+            match other_run.as_ref().and_then(|o| o.r2_out.get(&bad)).and_then(|m| m.get(&s.me)).cloned() {
                 Some(pk) => {
-                    r2.insert(s.bad, pk);
+                    r2.insert(bad, pk);
                 }
                 None => return skip("internal"),
             }
@@ -270,7 +273,7 @@ pub fn scenario_bad_round2_share<C: Suite>(rng: &mut TestRng, p: &Params, notes:
         _ => {
             // a non-constant coefficient commitment of the offender is replaced (the proof of
             // knowledge only covers the constant term, so part2 cannot notice); the share is honest
-            let pkg = match r1.get(&s.bad) {
+            let pkg = match r1.get(&bad) {
                 Some(x) => x.clone(),
                 None => return skip("internal"),
             };
@@ -281,17 +284,71 @@ pub fn scenario_bad_round2_share<C: Suite>(rng: &mut TestRng, p: &Params, notes:
                 *slot = repl;
             }
             let c = need(VerifiableSecretSharingCommitment::<C>::deserialize(cs), "commitment deserialize")?;
-            r1.insert(s.bad, dkg::round1::Package::new(c, *pkg.proof_of_knowledge()));
-            notes.insert("altered_coefficient".into(), json!(k));
+            r1.insert(bad, dkg::round1::Package::new(c, *pkg.proof_of_knowledge()));
+            return Ok(Some(k));
         }
+    }
+    Ok(None)
+}
+
+/// Round two: the share the receiver gets from the offender does not match the offender's commitment.
+/// With probability 40 % one to three FURTHER senders deliver a faulty share as well (same or another kind; an even and an odd
+/// number of faulty slots both occur): the statement about exactly one peer does not say who is named then, so only "part3
+/// refuses and names nobody but offenders" is required.
+pub fn scenario_bad_round2_share<C: Suite>(rng: &mut TestRng, p: &Params, notes: &mut Notes) -> Verdict {
+    let s = setup::<C>(rng, p, notes)?;
+    let pick_kind = |rng: &mut TestRng| {
+        let kind = BAD_SHARE_KINDS[rng.below(BAD_SHARE_KINDS.len())];
+        if kind == "share-for-another-recipient" && s.ids.len() < 3 {
+            "share-plus-one"
+        } else {
+            kind
+        }
+    };
+    let kind = pick_kind(rng);
+    notes.insert("fault".into(), json!(kind));
+    let mut r1 = s.run.r1_for(&s.me);
+    let mut r2 = s.run.r2_for(&s.me);
+    let mut other_run = None;
+    if let Some(k) = plant_bad_share::<C>(rng, p, &s, &mut other_run, s.bad, kind, &mut r1, &mut r2)? {
+        notes.insert("altered_coefficient".into(), json!(k));
+    }
+    // further offenders
+    let mut offenders = vec![s.bad];
+    let peers: Vec<Id<C>> = s.ids.iter().filter(|i| **i != s.me && **i != s.bad).copied().collect();
+    if !peers.is_empty() && rng.chance(40) {
+        let extra = [1usize, 1, 1, 2, 3, peers.len()][rng.below(6)].min(peers.len());
+        let same_kind = rng.chance(50);
+        let mut log = Vec::new();
+        for i in rng.subset(peers.len(), extra) {
+            let Some(x) = peers.get(i).copied() else { continue };
+            let k2 = if same_kind { kind } else { pick_kind(rng) };
+            plant_bad_share::<C>(rng, p, &s, &mut other_run, x, k2, &mut r1, &mut r2)?;
+            offenders.push(x);
+            log.push(json!({"offender": id_hex::<C>(&x), "fault": k2}));
+        }
+        notes.insert("further_offenders".into(), json!(log));
     }
     // part2 (with the possibly altered round-one set) must still work: the fault is not visible yet
     let (r2_secret, _) = need(dkg::part2::<C>(r1_secret_of(&s)?, &r1), "part2 before the faulty round-two share")?;
+    if offenders.len() == 1 {
+        let e = must_refuse(
+            dkg::part3::<C>(&r2_secret, &r1, &r2),
+            "part3 given one round-two share that does not match the sender's commitment",
+        )?;
+        return names_exactly::<C>(&e, &s.bad, "round-two share not matching the commitment");
+    }
     let e = must_refuse(
         dkg::part3::<C>(&r2_secret, &r1, &r2),
-        "part3 given one round-two share that does not match the sender's commitment",
+        &format!("part3 given {} round-two shares that do not match their senders' commitments", offenders.len()),
     )?;
-    names_exactly::<C>(&e, &s.bad, "round-two share not matching the commitment")
+    let named = e.culprits();
+    check(
+        named.iter().all(|c| offenders.contains(c)),
+        &format!("{} round-two shares not matching their commitments: Error::culprits() never names an honest participant", offenders.len()),
+        format!("a subset of {:?}", ids_hex::<C>(&offenders)),
+        format!("{:?} (error {})", culprits_hex::<C>(&e), short_dbg(&e)),
+    )
 }
 
 /// Missing / surplus / own-identifier / unknown-identifier packages in either round.
